@@ -36,6 +36,10 @@ def build_class(it, node, fr):
     decs = _decorator_names(node)
     if 'dataclass' in decs:
         kind = 'dataclass'
+    if any(b.kind == 'namedtuple-base' for b in cls.bases):
+        # class X(typing.NamedTuple): the annotated names are the fields, in order; methods stay methods
+        kind = 'namedtuple'
+        cls.bases = [b for b in cls.bases if b.kind != 'namedtuple-base']
     cls.kind = kind
     cfr = Frame(parent=fr)
     for b in cls.bases:
@@ -59,8 +63,10 @@ def build_class(it, node, fr):
             default = MISSING
             if s.value is not None:
                 default = it.eval(s.value, cfr)
-            if kind == 'dataclass':
+            if kind in ('dataclass', 'namedtuple'):
                 cls.fields = [(n, d) for n, d in cls.fields if n != s.target.id] + [(s.target.id, default)]
+                if kind == 'namedtuple':
+                    continue
             if default is not MISSING and not isinstance(default, Factory):
                 cls.attrs[s.target.id] = default
             continue
@@ -151,9 +157,12 @@ def instantiate(it, cls, args, kwargs, node=None):
             if k not in names or k in fields:
                 raise PyExc('TypeError', 'bad keyword %s' % k, site=(getattr(node, 'lineno', None), 'call'), kind='call')
             fields[k] = v
+        for n_, d_ in cls.fields:
+            if n_ not in fields and d_ is not MISSING:
+                fields[n_] = d_          # defaults of a typing.NamedTuple class
         if len(fields) != len(names):
             raise PyExc('TypeError', 'missing arguments', site=(getattr(node, 'lineno', None), 'call'), kind='call')
-        return Obj(cls, fields)
+        return Obj(cls, {n_: fields[n_] for n_ in names})
     if cls.kind == 'dataclass' and cls.lookup('__init__') is MISSING:
         names = [n for n, _ in cls.fields]
         if len(args) > len(names):
